@@ -83,40 +83,16 @@ Ltac id_clear s t D Hpc :=
   rewrite ?(sum_upd PNone) by reflexivity; rewrite ?Hg; rewrite ?occ_app; cbn [holds occ] in *;
   revert D; bool_cases.
 
-Theorem ID_step c s l s' : GQ s -> SQ s -> ID s -> step c s l = Some s' -> ID s'.
+Lemma ID_step_task c s t s' : GQ s -> SQ s -> ID s -> step_task c s t = Some s' -> ID s'.
 Proof.
-  intros G S D H. destruct l as [t o|t|t|n]; cbn [step] in H.
-  - (* Start *)
-    unfold start in H. destruct (Nat.eqb t (length (tasks s))) eqn:Et; cbn [negb] in H; [|discriminate].
-    pose proof (pcof_fresh s t Et) as Hpc.
-    destruct o as [k rm|x b|x|x| | ].
-    + inversion H; subst. id_plain s t D Hpc.
-    + destruct (mem_nat x (loose s)) eqn:Em; [|destruct (Nat.eqb x (next_oid s)) eqn:En]; inversion H; subst.
-      * pose proof Hpc as Hg; unfold pcof in Hg.
-        intros o0. specialize (D o0). unfold cnt, born in *. sp.
-        rewrite (occ_remove_nat o0 x _ Em). rewrite ?(sum_upd PNone) by reflexivity. rewrite ?Hg.
-        cbn [holds]. lia.
-      * apply Nat.eqb_eq in En. subst x. id_plain s t D Hpc.
-    + destruct (mem_nat x (out s)) eqn:Em; inversion H; subst.
-      pose proof Hpc as Hg; unfold pcof in Hg.
-      intros o0. specialize (D o0). unfold cnt, born in *. sp.
-      rewrite (occ_remove_nat o0 x _ Em). rewrite ?(sum_upd PNone) by reflexivity. rewrite ?Hg.
-      cbn [holds]. lia.
-    + destruct (mem_nat x (out s)) eqn:Em; inversion H; subst.
-      pose proof Hpc as Hg; unfold pcof in Hg.
-      intros o0. specialize (D o0). unfold cnt, born in *. sp.
-      rewrite (occ_remove_nat o0 x _ Em). rewrite ?(sum_upd PNone) by reflexivity. rewrite ?Hg.
-      cbn [holds]. lia.
-    + inversion H; subst. id_plain s t D Hpc.
-    + inversion H; subst. id_plain s t D Hpc.
-  - (* Step *)
+  intros G S D H.
     unfold step_task in H.
     destruct (pcof s t) as [|k rm|e rm|rm a|w rm|w rm o|r|o|o r|o r|o| | | | |o b|o a|o| | | | | | |sz|r] eqn:Hpc;
       try discriminate H.
     + destruct k as [|e]; inversion H; subst.
       * unfold acquire, fail_get. destruct (closed s); [|destruct (Z.ltb 0 (permits s))]; id_plain s t D Hpc.
       * id_plain s t D Hpc.
-    + destruct e; inversion H; subst; unfold acquire, fail_get;
+    + destruct e; [| |destruct (rt c)]; inversion H; subst; unfold acquire, fail_get; sp;
         [destruct (closed s); [|destruct (Z.ltb 0 (permits s))]..|]; id_plain s t D Hpc.
     + destruct (closed s).
       * inversion H; subst. destruct a; id_plain s t D Hpc.
@@ -151,11 +127,47 @@ Proof.
     + inversion H; subst. id_clear s t D Hpc.
     + inversion H; subst. id_plain s t D Hpc.
     + inversion H; subst. id_plain s t D Hpc.
+Qed.
+
+Theorem ID_step c s l s' : GQ s -> SQ s -> ID s -> step c s l = Some s' -> ID s'.
+Proof.
+  intros G S D H. destruct l as [t o|t|t|t|n]; cbn [step] in H.
+  - (* Start *)
+    unfold start in H. destruct (Nat.eqb t (length (tasks s))) eqn:Et; cbn [negb] in H; [|discriminate].
+    pose proof (pcof_fresh s t Et) as Hpc.
+    destruct o as [k rm|x b|x|x| | ].
+    + inversion H; subst. id_plain s t D Hpc.
+    + destruct (mem_nat x (loose s)) eqn:Em; [|destruct (Nat.eqb x (next_oid s)) eqn:En]; inversion H; subst.
+      * pose proof Hpc as Hg; unfold pcof in Hg.
+        intros o0. specialize (D o0). unfold cnt, born in *. sp.
+        rewrite (occ_remove_nat o0 x _ Em). rewrite ?(sum_upd PNone) by reflexivity. rewrite ?Hg.
+        cbn [holds]. lia.
+      * apply Nat.eqb_eq in En. subst x. id_plain s t D Hpc.
+    + destruct (mem_nat x (out s)) eqn:Em; inversion H; subst.
+      pose proof Hpc as Hg; unfold pcof in Hg.
+      intros o0. specialize (D o0). unfold cnt, born in *. sp.
+      rewrite (occ_remove_nat o0 x _ Em). rewrite ?(sum_upd PNone) by reflexivity. rewrite ?Hg.
+      cbn [holds]. lia.
+    + destruct (mem_nat x (out s)) eqn:Em; inversion H; subst.
+      pose proof Hpc as Hg; unfold pcof in Hg.
+      intros o0. specialize (D o0). unfold cnt, born in *. sp.
+      rewrite (occ_remove_nat o0 x _ Em). rewrite ?(sum_upd PNone) by reflexivity. rewrite ?Hg.
+      cbn [holds]. lia.
+    + inversion H; subst. id_plain s t D Hpc.
+    + inversion H; subst. id_plain s t D Hpc.
+  - (* Step *) eapply ID_step_task; eassumption.
   - (* Cancel *)
     unfold cancel_task in H.
     destruct (pcof s t) as [|k rm|e rm|rm a|w rm|w rm o|r|o|o r|o r|o| | | | |o b|o a|o| | | | | | |sz|r] eqn:Hpc;
       try discriminate H.
     + inversion H; subst. destruct a; [id_sem s t G D Hpc|id_plain s t D Hpc].
     + inversion H; subst. destruct a; [id_ssem s t S D Hpc|id_plain s t D Hpc].
+  - (* Fire *)
+    unfold fire_task in H. destruct (negb (rt c && mem_nat t (timed s))); [discriminate|].
+    destruct (pcof s t) as [|k rm|e rm|rm a|w rm|w rm o|r|o|o r|o r|o| | | | |o b|o a|o| | | | | | |sz|r] eqn:Hpc;
+      try discriminate H.
+    destruct (closed s || a) eqn:Eca.
+    + eapply ID_step_task; eassumption.
+    + apply orb_false_elim in Eca. destruct Eca as [_ ->]. inversion H; subst. id_plain s t D Hpc.
   - inversion H; subst. exact D.
 Qed.
